@@ -152,7 +152,7 @@ A_MACROS = [
     'the i-th collected predicate maps to the i-th boolean. What precedes the slice (syn ParseStream code producing `states` and `inner`) is outside.',
     'A-derive: the derived Clone impls of the parse types (ParseQueryParam, ParseQueryParamType, ParseAttributeCfg) are field-wise (the derives are dropped by R-derive and replaced by trusted stand-ins).',
     'A-std: String obeys the HashMap key model and is determined by its content (axiom_string_obeys_key_model, axiom_string_ext; vstd has the key-model axiom for the primitive types only); Vec::drain(..) consumed by a for loop yields the elements in order (R-drain).',
-    'Caller assumptions (preconditions of bind_query_params): the parser never produces the reserved parameter variants Option/With/Without; archetype names of one world are pairwise distinct.',
+    'Caller assumptions (preconditions of bind_query_params): the parser never produces the reserved parameter variants Option/With/Without (justified on every run by a syntactic check: no expression of macros/src constructs them; exit 2 otherwise); archetype names of one world are pairwise distinct.',
     'R-emit: the emission skeletons of generate_query_find / generate_query_iter / generate_query_iter_destroy are SLICES of the real functions (gv/emit.py): from `let bound_params = bind_query_params(..)?` on, '
     'keeping the binding call, `let mut queries`, the for / if-let headers, continue/break guards, `queries.push(..)` and the final if/else; every other statement must be a `let` that passes a syntactic purity check and is dropped; '
     'quote!(..) -> opaque gv_tokens(), syn::Error::new_spanned(..) -> gv_error(). Token CONTENT is outside the claim (the block content is verified for one schema by R-tmpl in the templates unit).',
